@@ -170,7 +170,8 @@ func stripDescriptions(s *ast.Schema) {
 
 // canonForReload: canonical form with block == quoted string values.
 func canonForReload(s *ast.Schema) string {
-	return strings.ReplaceAll(canonSchema(s), `"k":"Block"`, `"k":"String"`)
+	// (schema directives are embedded as JSON strings, hence the escaped variant)
+	return strings.ReplaceAll(strings.ReplaceAll(canonSchema(s), `"k":"Block"`, `"k":"String"`), `\"k\":\"Block\"`, `\"k\":\"String\"`)
 }
 
 func c13SchemaEval(c c13SchemaCase) string {
